@@ -50,6 +50,7 @@ var c07Behaviours = []string{
 	"glue-local-interface", // in-zone glue that is an address of one of this host's own network interfaces
 	"glue-loopback",     // a child delegation whose glue points at loopback / this host
 	"glue-out-of-zone",  // a child delegation served by a victim-zone host name with forged glue
+	"glue-lookalike",    // a child delegation served by a host of a sibling zone whose spelling merely ends in the adversary zone's text (ns.xZ), with forged glue: in bailiwick by string suffix, not by labels
 	"ns-in-answer-pad",  // answers carry Z's NS set naming a victim-zone host with forged glue
 }
 
@@ -299,6 +300,12 @@ func execC07(sc *C07Scenario, tr *kit.Trace, res *kit.Result) {
 			m.Authoritative = false
 			m.Rcode = dns.RcodeSuccess
 			fired("glue-out-of-zone")
+		case has("glue-lookalike") && (strings.HasPrefix(qn, "child.") || strings.HasPrefix(qn, "www.child.")):
+			m.Answer, m.Ns = nil, []dns.RR{nsRR("child."+Z, "ns.x"+Z)}
+			m.Extra = []dns.RR{evilA("ns.x"+Z, 86400)}
+			m.Authoritative = false
+			m.Rcode = dns.RcodeSuccess
+			fired("glue-lookalike")
 		case has("cname-continue") && strings.HasPrefix(qn, "cn."):
 			m.Rcode = dns.RcodeSuccess
 			m.Ns = nil
